@@ -8,17 +8,27 @@ id="$1"; demo="$2"; dest="$3"; shift 3
 OUT=/tmp/seed/out-$id; R=/tmp/mut/repo; S=/verif/seeded/$id
 export CARGO_TARGET_DIR=/tmp/mut/repo-target RUST_BACKTRACE=0 CARGO_NET_OFFLINE=true
 mkdir -p $S/demo; cp $OUT/patch.diff $S/; cp -r $OUT/demo/. $S/demo/; cp $OUT/meta.json $S/agent-meta.json
-log=$S/verify.log; : > $log
+log=$S/verify.log
+# DEMO_ONLY=1: keep the build/suite results of an earlier run, redo only the demonstration
+if [ -n "${DEMO_ONLY:-}" ]; then
+  b=$(grep -o 'build=[0-9]*' $log | tail -1 | cut -d= -f2); t=$(grep -o 'suite_with_patch=[0-9]*' $log | tail -1 | cut -d= -f2)
+  echo "== DEMO_ONLY rerun (build=$b suite_with_patch=$t kept from the run above)" >> $log
+else
+  : > $log
+fi
 git -C $R checkout -q -- . ; git -C $R clean -fdq -- crates src examples 2>/dev/null
 cd $R
 echo "== apply patch" >> $log; git apply $S/patch.diff >> $log 2>&1 || { echo "PATCH DOES NOT APPLY" >> $log; exit 1; }
+if [ -z "${DEMO_ONLY:-}" ]; then
 echo "== build with patch" >> $log; cargo build --workspace --offline >> $log 2>&1; b=$?
 echo "== suite with patch" >> $log; cargo test --workspace --no-fail-fast --offline >> $log 2>&1; t=$?
+fi
+mkdir -p "$(dirname $R/$dest)"
 cp $OUT/demo/$demo $R/$dest
 if [ -n "${EXTRA_SRC:-}" ]; then cp -r $OUT/demo/$EXTRA_SRC $R/$EXTRA_DEST; fi
 echo "== demo with patch" >> $log; cargo test --offline "$@" >> $log 2>&1; d1=$?
 git -C $R checkout -q -- .
 echo "== demo without patch" >> $log; cargo test --offline "$@" >> $log 2>&1; d0=$?
-rm -f $R/$dest
+rm -f $R/$dest; rmdir "$(dirname $R/$dest)" 2>/dev/null
 if [ -n "${EXTRA_SRC:-}" ]; then rm -rf $R/$EXTRA_DEST; fi
 echo "RESULT id=$id build=$b suite_with_patch=$t demo_with_patch=$d1 demo_without_patch=$d0" | tee -a $log
